@@ -338,70 +338,70 @@ pub fn spec(id: &str) -> Option<PropSpec> {
             "C01",
             run_c01,
             "cases = byte choice sequences decoded into programs+histories (proptest vec<u8>, 25% seeded by shape templates); non-trivial = an observer's value changed between two reads AND (a node was re-observed after having been computed and unobserved, OR a bind re-ran, OR a map_ref input changed with equal projection); distinct = distinct decoded action trace",
-            [600_000, 6_000_000],
+            [1_500_000, 6_000_000],
             false
         ),
         "C02" => engine_spec!(
             "C02",
             run_c02,
             "cases as C01; non-trivial = a stabilise in which a bind closure re-ran and at least two user functions ran (a transient combination was possible); distinct = distinct decoded action trace",
-            [600_000, 6_000_000],
+            [1_500_000, 6_000_000],
             false
         ),
         "C03" => engine_spec!(
             "C03",
             run_c03,
             "cases = programs with (nested) binds, inner nodes exported and observed/subscribed; non-trivial = a bind re-ran while a node of its previous generation had an input that changed in the same stabilise (a stale run was possible); distinct = distinct decoded action trace",
-            [600_000, 6_000_000],
+            [1_500_000, 6_000_000],
             false
         ),
         "C04" => engine_spec!(
             "C04",
             run_c04,
             "cases = union of all engine profiles (all cutoff kinds, subscriptions with handler actions, writer nodes, observer churn), in release-like and debug-assertion builds; non-trivial = >=2 stabilises, a bind re-run or observer removal, and a handle dropped while its node was necessary; distinct = distinct decoded action trace",
-            [400_000, 5_000_000],
+            [800_000, 5_000_000],
             true
         ),
         "C05" => engine_spec!(
             "C05",
             run_c05,
             "cases as C01 with heavy observer churn (clones, drop of one/last clone, disallow); non-trivial = a variable was written after an observer had been removed in the same inter-stabilise period and user functions still ran for other observers; distinct = distinct decoded action trace",
-            [600_000, 6_000_000],
+            [1_500_000, 6_000_000],
             false
         ),
         "C06" => engine_spec!(
             "C06",
             run_c06,
             "cases = programs with every cutoff kind (default, Never, Always, fn, boxed, asymmetric) on any node incl. vars and map_with_old with arbitrary did_change; non-trivial = one stabilise containing both a suppressed result and a propagated change; distinct = distinct decoded action trace",
-            [600_000, 6_000_000],
+            [1_500_000, 6_000_000],
             false
         ),
         "C07" => engine_spec!(
             "C07",
             run_c07,
             "cases = histories with every observer handle read after every action and from inside node functions/handlers; non-trivial = a read happened between a write and the next stabilise and an observed value later changed; distinct = distinct decoded action trace",
-            [500_000, 5_000_000],
+            [1_200_000, 5_000_000],
             false
         ),
         "C08" => engine_spec!(
             "C08",
             run_c08,
             "cases = sequences of the five write operations outside stabilise, from writer node functions and from update handlers; non-trivial = at least two deferred writes were issued inside stabilise; distinct = distinct decoded action trace",
-            [500_000, 5_000_000],
+            [1_200_000, 5_000_000],
             false
         ),
         "C09" => engine_spec!(
             "C09",
             run_c09,
             "cases = subscribe/unsubscribe/observe/clone/drop/disallow histories on shared nodes with all cutoff kinds; non-trivial = an observer or subscription was added/removed on a node in a period after which the node's value did not change, with >=2 notifications delivered in the case; distinct = distinct decoded action trace",
-            [600_000, 6_000_000],
+            [1_500_000, 6_000_000],
             false
         ),
         "C11" => engine_spec!(
             "C11",
             run_c11,
             "cases = C04's engine language (all cutoffs, subscriptions, observer churn, binds, exported inner nodes) with IncrState::verif_audit() called after every single action; non-trivial = an observer was removed, a bind re-ran (heights adjusted / edges swapped), a subscription was removed, and at least 5 audits ran; distinct = distinct decoded action trace",
-            [300_000, 4_000_000],
+            [500_000, 4_000_000],
             false
         ),
         "C10" => PropSpec {
@@ -424,7 +424,7 @@ pub fn spec(id: &str) -> Option<PropSpec> {
             id: "C13",
             level: "fault_enumeration",
             rule: "cases = generated programs+histories (subscriptions, handler actions, all cutoff kinds); each is first run fault-free to count the N invocations of user functions (node functions, bind closures, cutoff functions, update handlers), then re-executed from scratch with a panic injected at invocation k for every k (thorough: all k < min(N,64); quick: all k if N <= 12, else 12 evenly spaced k); non-trivial = N >= 4 and at least two observed values changed somewhere in the fault-free run (a mixed snapshot was possible); distinct = distinct decoded action trace; fault_injected_or_nested_evaluations counts the faulted runs",
-            cases: [30_000, 400_000],
+            cases: [50_000, 400_000],
             len: [160, 300],
             run: run_c13,
             exhaustive: None,
@@ -436,7 +436,7 @@ pub fn spec(id: &str) -> Option<PropSpec> {
             id: "C15",
             level: "exploration",
             rule: "cases = operator (incr_map, incr_filter_map, incr_mapi, incr_filter_mapi, incr_unordered_fold with/without update and revert-to-init, incr_merge, incr_partition(_mapi)) x map type (BTreeMap, Rc<BTreeMap>, OrdMap; each operator on every type it exists for) x a history of edits (insert, remove, change, clear, refill, equal write) and observe/unobserve toggles over keys 0..8, values 0..4; oracle = plain function of the current input(s) with std collections after every observed stabilise; non-trivial = the history empties the map, refills it, and edits it while the operator is unobserved; distinct = distinct decoded history",
-            cases: [400_000, 5_000_000],
+            cases: [1_000_000, 5_000_000],
             len: [160, 400],
             run: crate::maps::run_c15,
             exhaustive: None,
@@ -448,7 +448,7 @@ pub fn spec(id: &str) -> Option<PropSpec> {
             id: "C16",
             level: "exploration",
             rule: "cases = {incr_mapi_, incr_filter_mapi_} x {no cutoff, PartialEq cutoff, fn cutoff} x {BTreeMap, OrdMap} x per-key function family (pure map, map2 with an outer var, bind on the value choosing between outer nodes, function ignoring its input, one shared pre-existing node for all keys) x history of map edits, outer var writes and observe/unobserve; oracle = per-key computation applied to the current entries after every observed stabilise, no panic; non-trivial = a key was removed and re-added, an outer var was written and the output was re-observed; distinct = distinct decoded history",
-            cases: [300_000, 4_000_000],
+            cases: [600_000, 4_000_000],
             len: [160, 400],
             run: crate::maps::run_c16_case,
             exhaustive: None,
@@ -460,7 +460,7 @@ pub fn spec(id: &str) -> Option<PropSpec> {
             id: "C17",
             level: "exploration",
             rule: "cases = the C15 and C16 generators with every user function logging (role, key); oracle = logged keys per role are a subset of the keys that differ between the input the operator last processed and the current input (either input for merge), at most once per key and role, every key allowed once on initialisation, nothing while unobserved; builders only for added keys, per-key closures only for changed keys or after an outer var write; non-trivial = an edit touching fewer than half of a map of >= 4 keys; distinct = distinct decoded history",
-            cases: [500_000, 5_000_000],
+            cases: [1_000_000, 5_000_000],
             len: [160, 400],
             run: crate::maps::run_c17,
             exhaustive: None,
@@ -484,7 +484,7 @@ pub fn spec(id: &str) -> Option<PropSpec> {
             id: "C14",
             level: "exploration",
             rule: "cases = histories over an expert 'dynamic sum' (dependency multiset chosen by a control variable, added/removed from the function of a child, every dependency with a change callback) or an expert bind/join, with children that are vars, a map, a bind's main node, a bind-created (invalidatable) node, shared and duplicate children; actions: write inputs, switch the bind, change the dependency set, request make_stale / invalidate, export the bind's current inner node, observe/unobserve; oracle = reference sum / selected child, callback coherence checked inside the recompute function, validity rule, at most one recompute per stabilise and exactly one after make_stale; non-trivial = a dependency was added or removed after the node's first recompute; distinct = distinct decoded history",
-            cases: [300_000, 4_000_000],
+            cases: [600_000, 4_000_000],
             len: [160, 400],
             run: crate::c14::run_c14,
             exhaustive: None,
@@ -514,7 +514,7 @@ pub fn spec(id: &str) -> Option<PropSpec> {
             id: "C12",
             level: "exploration",
             rule: "cases = generated programs (binds returning their own input, self-map2, writer closures owning Var handles, handlers owning Var handles, exported bind-created nodes) whose histories drop node/var/observer handles at any point and end by dropping every remaining handle and the state in a drawn order interleaved with stabilises; every closure owns a clone of one canary Rc and every node is tracked by a WeakIncr; oracle = after each stabilise every node not reachable through strong references from the remaining handles/observers/closures (model) has strong_count 0, at the end no node and no closure is left, no drop panics (worker abort = violation), values of the remaining graph still equal the from-scratch evaluation; non-trivial = a handle was dropped while its node was still necessary, the state was dropped neither first nor last, and at least one unreachable node was seen released; distinct = distinct decoded action trace",
-            cases: [300_000, 4_000_000],
+            cases: [600_000, 4_000_000],
             len: [220, 480],
             run: run_c12,
             exhaustive: None,
@@ -529,7 +529,7 @@ pub fn spec(id: &str) -> Option<PropSpec> {
             id: "C20",
             level: "exploration",
             rule: "cases = histories of memoised calls f(k), k in 0..5, from top level and from inside a (nested) bind closure whose key follows a variable, with returned nodes kept / dropped / observed, nodes obtained inside the closure exported and observed from outside, bind switches, outer bind re-runs, bind dropped, writes and stabilises; oracle = while the model is certain a reference exists the call returns the identical node and the function's call counter does not move; when it is certain none exists and a stabilise ran since, the counter moves by exactly one; no claim in between; observers on memoised nodes (also those obtained inside a bind) always return x + k; non-trivial = the same key was requested from inside the bind and from top level, with a bind re-run to another key in between; distinct = distinct decoded history",
-            cases: [300_000, 4_000_000],
+            cases: [600_000, 4_000_000],
             len: [200, 480],
             run: crate::c20::run_c20,
             exhaustive: None,
